@@ -346,8 +346,9 @@ class Runner:
         shutil.rmtree(wd, ignore_errors=True)
         return res["sig"] == sig, res
 
-    def minimise(self, wid, sig, res, prefix, sub):
+    def minimise(self, wid, sig, res, prefix, sub, budget_s=90):
         """prefix: streams run in the dying child up to and including the one in flight. Returns (streams, info)."""
+        t_end = time.time() + budget_s
         in_flight = res["last_started"] not in res["events"]
         settle = 300 if in_flight else 2500
         for s in prefix:
@@ -365,7 +366,7 @@ class Runner:
                 return prefix, {"reproduced": False, "note": "did not reproduce when the batch prefix was replayed (timing dependent)"}
             cur = list(prefix)
             n = 2
-            while len(cur) >= 2:
+            while len(cur) >= 2 and time.time() < t_end:
                 chunk = max(1, len(cur) // n)
                 reduced = False
                 for i in range(0, len(cur), chunk):
@@ -376,11 +377,13 @@ class Runner:
                     if ok:
                         cur, n, reduced = cand, max(n - 1, 2), True
                         break
+                    if time.time() > t_end:
+                        break
                 if not reduced:
                     if chunk == 1:
                         break
                     n = min(len(cur), n * 2)
-        cur, used = c13gen.shrink(cur, lambda cand: self.reproduce(wid, cand, sig, sub, settle)[0], budget=120)
+        cur, used = c13gen.shrink(cur, lambda cand: time.time() < t_end and self.reproduce(wid, cand, sig, sub, settle)[0], budget=120)
         ok, r = self.reproduce(wid, cur, sig, sub, settle)
         return cur, {"reproduced": ok, "shrink_runs": used, "settle_ms": settle, "subscribe": sub,
                      "stderr_head": "\n".join(r["stderr"].splitlines()[:14])}
@@ -550,7 +553,7 @@ def _run_monitor(ctx, R, tier, t_start):
         res, prefix, sub, src = ve["first"]
         if time.time() > deadline + 45 and is_known(sig):
             return sig, v, prefix[-1:], {"reproduced": None, "note": "not minimised (time budget)"}
-        cur, info = R.minimise(wid % R.nworkers, sig, res, list(prefix), sub)
+        cur, info = R.minimise(wid % R.nworkers, sig, res, list(prefix), sub, budget_s=60 if tier == "quick" else 240)
         return sig, v, cur, info
 
     minimised = {}
@@ -570,6 +573,7 @@ def _run_monitor(ctx, R, tier, t_start):
                 res = ve["first"][0]
                 replay = {"streams": [s.to_json() for s in cur], "subscribe": ve["first"][2], "settle_ms": info.get("settle_ms", 2500),
                           "signature": sig, "variant": v, "panic": res["head"], "occurrences": ve["count"], "minimise": info,
+                          "trace_when_found": "\n".join([l for l in res["stderr"].splitlines() if l.strip()][:40]),
                           "how_to_replay": "python3 tools/check.py C13 --replay <this file>"}
                 nbytes = sum(len(s.data()) for s in cur)
                 what = "%s in %s — %d occurrence(s) of this signature; minimal input: %d stream(s), %d bytes [%s]" % (
